@@ -120,6 +120,10 @@ type genOutcomeC10 struct {
 	order string
 }
 
+// staleSameSize: what a reused output directory holds differs from a fresh generation in
+// content only, not in length.
+var staleSameSize bool
+
 func generateOnce(p *progen.Program, fs *MemFS, outDir string, go10 genOptsC10) (o genOutcomeC10) {
 	defer func() {
 		if r := recover(); r != nil {
@@ -131,7 +135,14 @@ func generateOnce(p *progen.Program, fs *MemFS, outDir string, go10 genOptsC10) 
 		// other options) left there: every file of that run, only longer
 		filepath.Walk(outDir, func(path string, fi os.FileInfo, err error) error {
 			if err == nil && fi.Mode().IsRegular() {
-				if f, err := os.OpenFile(path, os.O_APPEND|os.O_WRONLY, 0644); err == nil {
+				if staleSameSize {
+					// ... or of the same length, but not the same bytes (other options, another
+					// version of an included file)
+					if b, err := os.ReadFile(path); err == nil && len(b) > 8 {
+						b[3] ^= 0x20
+						os.WriteFile(path, b, 0644)
+					}
+				} else if f, err := os.OpenFile(path, os.O_APPEND|os.O_WRONLY, 0644); err == nil {
 					f.WriteString("\n// tail of a longer file that an earlier generation left here\n")
 					f.Close()
 				}
@@ -292,6 +303,7 @@ func RunC10(cfg simrt.Config, o world.Opts) *world.Result {
 		g.PluginTwoSpellings = simrt.Flip("c10.plugin-two-spellings", 0.1)
 		g.DerivedPrefix = simrt.Flip("c10.derived-pkg-prefix", 0.3)
 		g.ReusedOut = simrt.Flip("c10.reused-output-directory", 0.25)
+		staleSameSize = g.ReusedOut && ch("c10.stale-same-size", 2) == 1
 		os.RemoveAll(outDir)
 		if o.Trace {
 			logf("options %s", g)
